@@ -16,6 +16,7 @@ the bound name (the serialiser writes gate.name, the deserialiser looks the glob
 `make_parametric_gate_prototype` and `builtin_gate_by_name` must be the recognised ones.  A name bound
 twice, control flow at module level, `del`, annotated or augmented assignments are rejected.
 """
+OUTPUTS = ['NamesGen.v']      # generated files (the driver uses this to decide which properties depend on this translator)
 import ast, os
 from trlib import *
 
